@@ -520,9 +520,10 @@ class _resolve_called_lambdas(ast.NodeTransformer):
         for arg_map in reversed(self._arg_map_list):
             if node.id in arg_map:
                 replacement = arg_map[node.id]
-                # Every use of the parameter gets its own copy of the argument (a node object
-                # standing in two places is edited twice by the in-place passes that follow)
-                return node if replacement is None else copy.deepcopy(replacement)
+                # Every use of the parameter gets its own copy of the argument's nodes (a node
+                # object standing in two places is edited twice by the in-place passes that
+                # follow). Captured values stay the objects they are.
+                return node if replacement is None else _copy_ast_nodes(replacement)
         return node
 
 
